@@ -41,7 +41,7 @@ def random_cfg(rng, max_degree=5, max_cells=40, allow_fast=True):
     fast = allow_fast and rng.random() < 0.3
     if fast:
         degree = 3
-    lo = degree + 1 if periodic else 1
+    lo = degree if periodic else 1          # make_knots admits periodic spaces with ncells >= degree
     if fast and not periodic:
         lo = 3       # (fewer cells are exercised by dedicated cases)
     ncells = rng.choice([lo, lo + 1, lo + 2, rng.randint(lo, max(lo, 12)), rng.randint(lo, max(lo, max_cells))])
